@@ -120,7 +120,12 @@ func (injectedRuntimeError) Error() string   { return "verif: injected runtime e
 func (injectedRuntimeError) RuntimeError()   {}
 
 // hit registers one callback event and returns the fault kind to apply ("" = none).
+// storeEvents counts the storage callbacks of all stores of the process (the remote engines of
+// a distributed engine have stores of their own).
+var storeEvents int64
+
 func (s *Store) hit(site string, ctx context.Context) string {
+	atomic.AddInt64(&storeEvents, 1)
 	s.mu.Lock()
 	s.events++
 	s.siteCount[site]++
